@@ -22,6 +22,8 @@ import (
 //	                       [ncallers] ++ per caller [code val] ++ per key 1..3 [in flight, invocations, cached, value]
 //	2 ncallers nkeys lat_us  per caller [key delay_us outcome]
 //	                     free-running jittered run; observation = event log [type caller key outcome value]*
+//	                     (delay_us < 0: busy-wait of -delay_us loop iterations instead of a sleep;
+//	                      lat_us < 0: fn returns at once, lat_us = 0: fn yields once)
 //
 // The supplied function blocks on a harness-owned channel (controlled mode), so
 // the harness decides when every caller starts and when every execution ends.
@@ -296,6 +298,18 @@ func c17Controlled(def int64, acts []int64) (obs []int64, ok bool) {
 
 type c17Event struct{ typ, caller, key, outcome, val int }
 
+var c17SpinSink atomic.Int64
+
+// busy-wait of n loop iterations (a few ns each): staggers the callers of the
+// tight-race stream by less than a scheduler quantum
+func c17Spin(n int) {
+	var x int64
+	for i := 0; i < n; i++ {
+		x += int64(i) ^ (x >> 3)
+	}
+	c17SpinSink.Add(x)
+}
+
 func c17Free(ncallers, nkeys, latUs int, cfg []int64) []int64 {
 	m := gogu.NewMemoizer[string, int](time.Hour, 0)
 	var mu sync.Mutex
@@ -319,14 +333,16 @@ func c17Free(ncallers, nkeys, latUs int, cfg []int64) []int64 {
 			<-gate
 			if delayUs > 0 {
 				time.Sleep(time.Duration(delayUs) * time.Microsecond)
+			} else if delayUs < 0 {
+				c17Spin(-delayUs) // sub-microsecond stagger (tight-race stream)
 			}
 			fn := func() (*cache.Item[int], error) {
 				ev(c17Event{2, c, key, 0, 0})
 				if latUs > 0 {
 					time.Sleep(time.Duration(latUs) * time.Microsecond)
-				} else {
+				} else if latUs == 0 {
 					runtime.Gosched()
-				}
+				} // latUs < 0: fn returns at once, without yielding (tight-race stream)
 				if outcome != 0 {
 					ev(c17Event{3, c, key, 1, 2000 + c})
 					return nil, &c17Err{2000 + c}
@@ -569,9 +585,32 @@ func genC17(g *Gen) {
 		}
 		jobs = append(jobs, &job{in: w.Out()})
 	}
+	// ---- tight race: many short rounds of 2..4 callers on ONE key, zero latency, starts
+	// staggered by a sub-microsecond busy-wait, so that a caller's cache miss, another
+	// caller's complete flight (store + removal from the group) and the first caller's
+	// group.Do interleave (the window the controlled runs cannot reach); a quarter of the
+	// rounds let the first caller's execution fail ----
+	nFreeJobs := len(jobs)
+	nt := g.Pick(10000, 60000)
+	// measured on the unchanged code (16 cores): with fn returning at once (lat -1) about 1.5 % of
+	// the rounds hit the window (with a runtime.Gosched in fn: 0.1 %); the spin range barely matters
+	const spinMax, tightLat, workers = 300, -1, 4
+	for i := 0; i < nt; i++ {
+		nc := 2 + g.Rng.Intn(3)
+		errFirst := g.Rng.Intn(4) == 0
+		w := (&W{}).Int(2).Int(nc).Int(1).Int(tightLat)
+		for c := 0; c < nc; c++ {
+			o := 0
+			if errFirst && c == 0 {
+				o = 1
+			}
+			w.Int(1).Int(-g.Rng.Intn(spinMax + 1)).Int(o)
+		}
+		jobs = append(jobs, &job{in: w.Out()})
+	}
 	var wg sync.WaitGroup
 	ch := make(chan *job)
-	for i := 0; i < 4; i++ {
+	for i := 0; i < workers; i++ {
 		wg.Add(1)
 		go func() {
 			defer wg.Done()
@@ -585,7 +624,29 @@ func genC17(g *Gen) {
 	}
 	close(ch)
 	wg.Wait()
-	for _, j := range jobs {
+	for ji, j := range jobs {
+		if ji >= nFreeJobs {
+			// a second execution that begins after a successful one has ended: the
+			// miss-before-store / Do-after-removal window was hit
+			ended, reexec := false, false
+			for i := 0; i+4 < len(j.obs); i += 5 {
+				if j.obs[i] == 3 && j.obs[i+3] == 0 {
+					ended = true
+				}
+				if j.obs[i] == 2 && ended {
+					reexec = true
+				}
+			}
+			g.Count(fmt.Sprintf("tightrace: %d callers", j.in[1]))
+			if reexec {
+				g.Count("tightrace: re-execution after a stored value (stale-miss window hit)")
+			}
+			if j.in[6] != 0 {
+				g.Count("tightrace: first caller's execution fails")
+			}
+			g.Raw("tightrace", reexec || j.in[6] != 0, j.in, j.obs)
+			continue
+		}
 		g.Count(fmt.Sprintf("free: %d keys, latency %dus", j.in[2], j.in[3]))
 		execs := 0
 		for i := 0; i+4 < len(j.obs); i += 5 {
@@ -602,5 +663,5 @@ func genC17(g *Gen) {
 
 func init() {
 	register(&Prop{ID: "C17", Exec: execC17, Gen: genC17, Describe: describeC17,
-		Rule: "stream exhaustive (model-compared): every action sequence of length <= 5 (thorough 6) over {start caller on k, running execution of k returns a value, ... returns an error} for k in 1..2, plus 3 keys up to length 4 (thorough 6) without no-op finishes, driven against the real Memoize with callbacks blocking on harness channels, snapshot compared after every action at quiescence; stream random: longer controlled sequences on 3 keys with default expiry 1h / 0 / NoExpiration; stream expiry: controlled sequences with a 5 ms default expiry where the harness lets all deadlines pass before marked actions (cases whose timing cannot be bracketed are discarded and counted); stream monitored (MONITORED, NOT MODEL-COMPARED): free-running jittered runs, 1..16 callers x 1..3 keys x fn latency {0, 200us, 2ms} x start spread {0, 300us, 5ms} x outcomes, event log judged by the Gallina monitor mon_accepts. non-trivial = the sequence contains a join of an in-flight execution, a cache hit or an error outcome (controlled) / >= 2 callers (free); distinct = distinct wire input"})
+		Rule: "stream exhaustive (model-compared): every action sequence of length <= 5 (thorough 6) over {start caller on k, running execution of k returns a value, ... returns an error} for k in 1..2, plus 3 keys up to length 4 (thorough 6) without no-op finishes, driven against the real Memoize with callbacks blocking on harness channels, snapshot compared after every action at quiescence; stream random: longer controlled sequences on 3 keys with default expiry 1h / 0 / NoExpiration; stream expiry: controlled sequences with a 5 ms default expiry where the harness lets all deadlines pass before marked actions (cases whose timing cannot be bracketed are discarded and counted); stream monitored (MONITORED, NOT MODEL-COMPARED): free-running jittered runs, 1..16 callers x 1..3 keys x fn latency {0, 200us, 2ms} x start spread {0, 300us, 5ms} x outcomes, event log judged by the Gallina monitor mon_accepts; stream tightrace (MONITORED, NOT MODEL-COMPARED): 10000 (thorough 60000) free-running rounds of 2..4 callers on ONE key, fn returning at once, starts staggered by a random sub-microsecond busy-wait, a quarter with a failing first execution, same monitor (aimed at the window between a caller's cache miss and its group.Do; the histogram counts how often a re-execution after a stored value occurred); non-trivial there = that window was hit or the first execution fails. non-trivial = the sequence contains a join of an in-flight execution, a cache hit or an error outcome (controlled) / >= 2 callers (free); distinct = distinct wire input"})
 }
